@@ -182,7 +182,7 @@ def returns_on_edge(ctx, body, frm, to, pred, avoid_sites=()):
 
 def err_code_calls(ctx, body, code):
     """blocks calling TransportError::<CODE>(..)"""
-    return {c.bb for c in body.calls() if c.is_('TransportError::' + code)}
+    return {c.bb for c in body.calls() if c.is_('transport_error::Error::' + code)}
 
 
 def edge_leads_to_error(ctx, body, br, truth_value, code, stop_sites=()):
